@@ -48,12 +48,33 @@ def branch_defs(stmts, name):
     return [n for n in stmts if isinstance(n, ast.Assign) and any(U(t) == name for t in n.targets)]
 
 
-def encoder_facts(ctx, q):
+class _Columns(ast.NodeTransformer):
+    """pandas column access spelled frame["name"] is read as frame.name (identifier keys only; both mean the same column)"""
+    def visit_Subscript(self, n):
+        self.generic_visit(n)
+        if isinstance(n.slice, ast.Constant) and isinstance(n.slice.value, str) and n.slice.value.isidentifier() and isinstance(n.ctx, ast.Load) \
+                and isinstance(n.value, (ast.Name, ast.Attribute)):
+            return ast.copy_location(ast.Attribute(value=n.value, attr=n.slice.value, ctx=ast.Load()), n)
+        return n
+
+
+def encoder_fn(ctx, q):
+    import copy
     f = ctx.fn(q)
+    g = copy.copy(f)
+    g.node = _Columns().visit(copy.deepcopy(f.node))
+    ast.fix_missing_locations(g.node)
+    return g
+
+
+def encoder_facts(ctx, q):
+    f = encoder_fn(ctx, q)
     body = with_body(f)
     ret = [n for n in body if isinstance(n, ast.Return)]
     ctx.need(len(ret) == 1 and isinstance(ret[0].value, ast.Tuple), f"{f.site()}: tuple return not found")
-    elts = ret[0].value.elts
+    # locals that only carry a column of the joined / id table into the return are read through
+    carry = {k: v for k, v in single_defs(f.node).items() if isinstance(v, (ast.Attribute, ast.Call)) and not any(isinstance(x, ast.Call) and attr_tail(x) in ("merge", "DataFrame") for x in ast.walk(v))}
+    elts = [inline(e, carry) if isinstance(e, ast.Name) else e for e in ret[0].value.elts]
     joined_def = [n for n in body if isinstance(n, ast.Assign) and isinstance(n.value, ast.Call) and attr_tail(n.value) == "merge"]
     ctx.need(len(joined_def) == 1, f"{f.site()}: merge not found")
     return f, body, ret[0], elts, joined_def[0]
@@ -331,6 +352,21 @@ def r4(ctx):
     joined = "|".join(steps)
     if steps != want_steps and "drop_duplicates" not in joined:
         raise AnalysisError(f"{f1.site()}: construction of the 1-d id table is not in a recognised idiom")
+    # the ids written as an explicit position column of the sorted unique table
+    head = f"{r1_}.drop_duplicates().sort_values(by='val').reset_index(drop=True)"
+    pos_forms = (f"np.arange({t1}.shape[0])", f"np.arange(len({t1}))", f"np.arange(len({t1}.index))", f"{t1}.index", f"np.arange({t1}.val.size)")
+    explicit = False
+    for n in nb:
+        c = n.value if isinstance(n, ast.Expr) and isinstance(n.value, ast.Call) else None
+        if c is not None and attr_tail(c) == "insert" and U(c.func.value) == t1 and len(c.args) == 3 and U(c.args[1]) == "'new_index'" and U(c.args[2]).replace(" ", "") in pos_forms:
+            explicit = True
+        if isinstance(n, ast.Assign) and len(n.targets) == 1 and U(n.targets[0]).replace(" ", "") in (f"{t1}['new_index']", f"{t1}.new_index") and U(n.value).replace(" ", "") in pos_forms:
+            explicit = True
+    if steps == [head] and explicit:
+        ctx.ok("R4", f"{f1.site()}::positions-of-sorted-unique", "ids = an explicit position column 0..n-1 of rows.drop_duplicates().sort_values().reset_index(drop=True)")
+        return
+    if steps != want_steps and steps[:1] == [head] and not ("reset_index" in joined.split("|", 1)[-1] and "new_index" in joined):
+        raise AnalysisError(f"{f1.site()}: the 1-d id table starts from the sorted unique rows but its id column is built in an idiom this rule does not know ({steps[1:]})")
     ctx.check("R4", f"{f1.site()}::positions-of-sorted-unique", steps == want_steps or
               (f"{r1_}.drop_duplicates().sort_values(by='val').reset_index(drop=True)" in joined and "reset_index" in joined.split("|", 1)[-1] and "new_index" in joined),
               "ids = positions in rows.drop_duplicates().sort_values().reset_index(drop=True)",
@@ -373,9 +409,22 @@ def r5(ctx):
         pos = U(iff.test).replace(" ", "") == "existing_mappingisnotNone"
         eb = iff.body if pos else iff.orelse
         table = U(jd.value.args[0])
-        ok = len(eb) == 1 and isinstance(eb[0], ast.Assign) and U(eb[0].targets[0]) == table and isinstance(eb[0].value, ast.Call) and call_name(eb[0].value) == "pandas.DataFrame" \
-            and isinstance(eb[0].value.args[0], ast.Dict) and [k.value for k in eb[0].value.args[0].keys] == cols \
-            and [U(v) for v in eb[0].value.args[0].values] == [f"existing_mapping[{i}]" for i in range(len(cols))]
+        # locals of the branch that only name a component of the mapping are read through
+        benv = {}
+        tstores = []
+        for st_ in eb:
+            if isinstance(st_, ast.Assign) and len(st_.targets) == 1 and isinstance(st_.targets[0], ast.Name) and U(st_.targets[0]) != table:
+                benv[st_.targets[0].id] = st_.value
+            elif isinstance(st_, ast.Assign) and len(st_.targets) == 1 and isinstance(st_.targets[0], ast.Tuple) and isinstance(st_.value, ast.Tuple) \
+                    and len(st_.targets[0].elts) == len(st_.value.elts) and all(isinstance(t, ast.Name) for t in st_.targets[0].elts):
+                for t_, v_ in zip(st_.targets[0].elts, st_.value.elts):
+                    benv[t_.id] = v_
+            else:
+                tstores.append(st_)
+        ok = len(tstores) == 1 and isinstance(tstores[0], ast.Assign) and U(tstores[0].targets[0]) == table and isinstance(tstores[0].value, ast.Call) and call_name(tstores[0].value) == "pandas.DataFrame" \
+            and isinstance(tstores[0].value.args[0], ast.Dict) and [k.value for k in tstores[0].value.args[0].keys] == cols \
+            and [U(inline(v, benv)) for v in tstores[0].value.args[0].values] == [f"existing_mapping[{i}]" for i in range(len(cols))] \
+            and all(U(v) in [f"existing_mapping[{i}]" for i in range(len(cols))] for v in benv.values())
         ctx.check("R5", f"{f.site()}::mapping-used-verbatim", ok, f"table = DataFrame({{{cols}: existing_mapping[0..{len(cols) - 1}]}}) with no re-sorting or renumbering",
                   "in the supplied-mapping branch the id table is not built from the mapping's columns verbatim")
     # the validator's definition, arm by arm (per-path return expressions, locals inlined)
@@ -409,6 +458,29 @@ def r5(ctx):
                   f"the validator accepts on `{U(blind[0])[:100]}`, which never looks at the distinct values (no unique / set / bincount / sort): "
                   f"duplicated ids with a gap (e.g. 0, 0, 2) pass min/max/size tests although the ids are not dense")
         return
+    if w is None and wo is None and len(accepting) == 1:
+        # one arm for both cases: the distinct values other than the sentinel read 0, 1, .., k-1
+        ret = accepting[0]
+        r_ = ret
+        if isinstance(r_, ast.Call) and call_name(r_) in ("np.all", "bool") and len(r_.args) == 1:
+            r_ = r_.args[0]
+        elif isinstance(r_, ast.Call) and call_name(r_) == "np.array_equal" and len(r_.args) == 2:
+            r_ = ast.Compare(left=r_.args[0], ops=[ast.Eq()], comparators=[r_.args[1]])
+        uniq = (f"np.unique({a})", f"np.sort(np.unique({a}))")
+        unified = False
+        if isinstance(r_, ast.Compare) and len(r_.ops) == 1 and isinstance(r_.ops[0], ast.Eq):
+            for D, Rg in ((r_.left, r_.comparators[0]), (r_.comparators[0], r_.left)):
+                d = U(D).replace(" ", "")
+                okD = any(d in (f"{u}[{u}!=CONTROL_SENTINEL_VALUE]", f"{u}[{u}!=-1]", f"np.setdiff1d({a},[CONTROL_SENTINEL_VALUE])", f"np.setdiff1d({u},[CONTROL_SENTINEL_VALUE])") for u in uniq)
+                rg = U(Rg).replace(" ", "")
+                okR = rg in (f"np.arange({d}.shape[0])", f"np.arange(len({d}))", f"np.arange({d}.size)")
+                if okD and okR:
+                    unified = True
+        ok_dt = "dtype" in arms and U(arms["dtype"]) == "False"
+        if unified:
+            ctx.check("R5", f"{v.site()}::definition", ok_dt, "integers; the distinct values other than the sentinel are exactly 0..k-1",
+                      "the validator does not refuse non-integer arrays first")
+            return
     if w is None or wo is None:
         raise AnalysisError(f"{v.site()}: the validator no longer has the sentinel / no-sentinel arms comparing sorted unique values with a range; "
                             f"a different algorithm cannot be judged dense-or-not by this rule")
@@ -638,6 +710,68 @@ def r6(ctx):
               f"the encoded vector is unstacked by `{U(st[0].value)}` ({uo}-major), which is not the inverse of the {fn_}-major flattening (treatments of different rows are interleaved)")
 
 
+def _nonsentinel_distinct_count(e, base):
+    """True: e counts the distinct values of `base` other than the control sentinel; False: e is a count of something else derived from
+    `base` (sentinel included, or an unconditional -1); None: not recognised"""
+    SENT = ("CONTROL_SENTINEL_VALUE", "-1", "[CONTROL_SENTINEL_VALUE]", "[-1]", "np.array([CONTROL_SENTINEL_VALUE])", "(CONTROL_SENTINEL_VALUE,)")
+
+    def T(x):
+        return U(x).replace(" ", "")
+
+    def values(x):
+        """(sentinel excluded, de-duplicated) for an array expression derived from base; None if unknown"""
+        if T(x) == base.replace(" ", ""):
+            return (False, False)
+        if isinstance(x, ast.Call) and call_name(x) in ("np.unique", "set", "frozenset", "pandas.unique") and len(x.args) == 1 and not x.keywords:
+            v = values(x.args[0])
+            return None if v is None else (v[0], True)
+        if isinstance(x, ast.Call) and call_name(x) == "np.setdiff1d" and len(x.args) == 2 and T(x.args[1]) in SENT:
+            v = values(x.args[0])
+            return None if v is None else (True, True)
+        if isinstance(x, ast.Subscript) and isinstance(x.slice, ast.Compare) and len(x.slice.ops) == 1 and isinstance(x.slice.ops[0], ast.NotEq):
+            l, r_ = x.slice.left, x.slice.comparators[0]
+            if T(l) == T(x.value) and T(r_) in SENT or T(r_) == T(x.value) and T(l) in SENT:
+                v = values(x.value)
+                return None if v is None else (True, v[1])
+        return None
+
+    def count(x):
+        if isinstance(x, ast.Call) and call_name(x) == "int" and len(x.args) == 1:
+            return count(x.args[0])
+        if isinstance(x, ast.Attribute) and x.attr == "size":
+            return values(x.value)
+        if isinstance(x, ast.Call) and call_name(x) == "len" and len(x.args) == 1:
+            return values(x.args[0])
+        if isinstance(x, ast.Subscript) and isinstance(x.value, ast.Attribute) and x.value.attr == "shape" and T(x.slice) == "0":
+            return values(x.value.value)
+        m = None
+        if isinstance(x, ast.Call) and call_name(x) in ("np.count_nonzero", "np.sum") and len(x.args) == 1 and not x.keywords:
+            m = x.args[0]
+        elif isinstance(x, ast.Call) and isinstance(x.func, ast.Attribute) and x.func.attr == "sum" and not x.args and not x.keywords:
+            m = x.func.value
+        if isinstance(m, ast.Compare) and len(m.ops) == 1 and isinstance(m.ops[0], ast.NotEq):
+            l, r_ = m.left, m.comparators[0]
+            arr = l if T(r_) in SENT else (r_ if T(l) in SENT else None)
+            if arr is not None:
+                v = values(arr)
+                return None if v is None else (True, v[1])
+        if isinstance(x, ast.BinOp) and isinstance(x.op, ast.Sub) and T(x.right) == "1":
+            c = count(x.left)
+            return None if c is None else "minus-one"
+        return None
+    c = count(e)
+    if c is None:
+        return None
+    if c == "minus-one":
+        return False
+    excl, dedup = c
+    if excl and dedup:
+        return True
+    if not excl:
+        return False
+    return None
+
+
 def r7(ctx):
     C03.r4(ctx, rule="R7")
     N = Norm(strict=False)
@@ -647,7 +781,12 @@ def r7(ctx):
             N.key(parse_expr("np.setdiff1d(self.treatment_mapping[2], np.array([CONTROL_SENTINEL_VALUE])).size")),
             N.key(parse_expr("len(np.setdiff1d(self.treatment_mapping[2], [CONTROL_SENTINEL_VALUE]))")),
             N.key(parse_expr("np.unique(self.treatment_mapping[2][self.treatment_mapping[2] != CONTROL_SENTINEL_VALUE]).size"))]
-    ctx.check("R7", f"{f.site()}::excludes-only-the-sentinel", len(r) == 1 and N.key(r[0].value) in want,
+    verdict = None
+    if len(r) == 1 and N.key(r[0].value) not in want:
+        verdict = _nonsentinel_distinct_count(inline(r[0].value, single_defs(f.node)), "self.treatment_mapping[2]")
+        if verdict is None:
+            raise AnalysisError(f"{f.site()}: `{U(r[0].value)[:80]}` is not a recognised way of counting the distinct non-sentinel ids of the mapping")
+    ctx.check("R7", f"{f.site()}::excludes-only-the-sentinel", len(r) == 1 and (N.key(r[0].value) in want or verdict is True),
               "number of distinct mapping ids other than the sentinel",
               f"n_unique_treatments is `{U(r[0].value) if r else None}`: it must count the distinct mapping ids other than the sentinel "
               f"(subtracting 1 unconditionally is wrong for a mapping without a control; counting row ids shrinks after a split)")
